@@ -4,6 +4,7 @@ import Model.Numscript.VM
 import Lemmas.NumResolve
 import Lemmas.NumRun
 import Lemmas.NumCheck
+import Lemmas.NumRunEq
 /-! C12 — no script, variable map or ledger state can crash the engine.
 Stage 1: at the level of `Spec` (the source-level interpreter the compiler+VM are differentially tied to).
 `Spec.run` is a total Lean function — every recursion in it (`evalSource`/`evalSources`,
@@ -113,7 +114,8 @@ theorem vm_never_panics_partial (P : Script) (prog : Program) (hc : compile P = 
         obtain ⟨cx, hE, hok⟩ := run_setup hc hv hr hb
         have hrel : Rel B.accts B.keys ({ balances := B } : VM.Machine) { st := { bal := B.bal, postings := [] } } :=
           ⟨rfl, rfl, rfl, rfl, rfl, rfl, rfl, hok⟩
-        have hex := execute_correct hc hfr cx hE _ _ hrel
+        have hp := vpos_of_resolved hc (frag_tablePos hc hfr) hv hr hb
+        have hex := execute_correct hc hfr cx hp hE _ _ hrel
         simp only [VM.run, hv, hr, hb]
         cases hev : evalStmts (envOf prog.resources vals) P.stmts { st := { bal := B.bal, postings := [] } } with
         | error er =>
